@@ -273,10 +273,38 @@ func checkC10(c *Ctx) {
 		return
 	}
 	t := newTaint(p)
+	t.heap = os.Getenv("CIRCL_HEAPTAINT") != ""
 	for _, d := range decs {
 		t.seed(d)
 	}
 	t.run()
+	if t.heap {
+		// functions reachable from the entry points that load a tainted field are analysed too
+		reachAll := p.reachFrom(decs)
+		for round := 0; round < 4; round++ {
+			nf := len(t.fields)
+			for _, f := range reachAll {
+				uses := false
+				for _, b := range f.Blocks {
+					for _, in := range b.Instrs {
+						if fa, ok := in.(*ssa.FieldAddr); ok {
+							if fv := fieldVar(fa); fv != nil && t.fields[fv] {
+								uses = true
+							}
+						}
+					}
+				}
+				if uses {
+					t.push(f)
+				}
+			}
+			t.run()
+			if len(t.fields) == nf {
+				break
+			}
+		}
+		fmt.Printf("heap taint: %d tainted fields\n", len(t.fields))
+	}
 	c.count("tainted_functions", len(t.funcs))
 	isDecoder := map[*ssa.Function]bool{}
 	for _, d := range decs {
@@ -684,6 +712,13 @@ func c10Lemmas(c *Ctx, p *Program) {
 			return false
 		}
 		c.orderRule(p, "C10.lemma", "the header's shape is validated before its sections are indexed", f, "call of ciphertextHeader.checkShape", isShape, "index into header.c2 / c3 / c3neg", isHdrIndex)
+	}
+	// tkn20: a decoded policy has exactly one more input wire than its formula has gates (wires and
+	// gates index each other in Formula.satisfaction / toposort and in Policy.String)
+	{
+		f := p.Func("abe/cpabe/tkn20/internal/tkn", "Policy", "UnmarshalBinary")
+		c.guard(p, "C10.lemma", "a policy whose number of inputs differs from gates+1 is rejected", f,
+			GuardSpec{BinAssumes: []BinAssume{binDesc(f, "len(Inputs) != len(Gates)+1", `len\(param#0\.Inputs\) != \(len\(param#0\.F\.Gates\)\+1\)|\(len\(param#0\.F\.Gates\)\+1\) != len\(param#0\.Inputs\)`, latTrue)}})
 	}
 	// sidh parameter tables
 	for _, pk := range []string{"p434", "p503", "p751"} {
